@@ -228,4 +228,26 @@ example : (processCell (A := toy)
       ⟨20, false, false, toyEnc 3 .fwd 0 (toyEnc 9 .bwd 0 Ex.msg)⟩).2
     = .forward 6 ⟨21, false, false, toyEnc 4 .bwd 2 (toyEnc 9 .bwd 0 Ex.msg)⟩ := by decide
 
+/-! ### the last step: from the decrypted DATA message to the application (`on_data`) -/
+
+/-- **Every payload of an end-to-end circuit reaches `on_raw_data`**, whatever it looks like (IPv8-looking, BitTorrent-
+    looking, empty, …), on the downloader's and on the seeder's circuit alike: the circuit *type* decides. -/
+theorem e2e_data_reaches_raw (ct : CType) (h : isE2EType ct = true) (pfx data : Bytes) (tunnelEp destZero : Bool) :
+    onDataSink (some ct) true true pfx tunnelEp destZero data = .raw := by
+  simp [onDataSink, h]
+
+/-- on every other own circuit exactly the IPv8-looking payloads are diverted (re-injected as tunnel-community packet or
+    handed to the other communities); everything else reaches `on_raw_data` -/
+theorem plain_data_sink (ct : CType) (h : isE2EType ct = false) (pfx data : Bytes) (tunnelEp destZero : Bool) :
+    onDataSink (some ct) true true pfx tunnelEp destZero data =
+      (if couldBeIpv8 data then
+         (if data.take 22 == pfx then .ownPacket else if tunnelEp then .otherCommunity else .droppedNoTunnelEndpoint)
+       else .raw) := by
+  simp [onDataSink, h]
+
+example : onDataSink (some .rpSeeder) true true [0, 2] false true
+    ([0, 2] ++ List.replicate 30 (7 : UInt8)) = .raw := by decide
+example : onDataSink (some .data) true true ([0, 2] ++ List.replicate 20 (7 : UInt8)) false true
+    ([0, 2] ++ List.replicate 30 (7 : UInt8)) = .ownPacket := by decide
+
 end Ipv8.C04
